@@ -402,7 +402,10 @@ def judge_derive(g, rules, inst, final_key, scheme):
                 weight[0] *= float(g.factors[e.label.name].weights.to_dense()[tuple(asst[v] for v in e.nodes)])
         children = {}
         redges = list(rule.rhs.edges())
-        for slot, child in enumerate(inst[i][3]):
+        slots = list(enumerate(inst[i][3]))
+        if scheme:
+            slots.reverse()       # the children dict need not be filled in the order of the rule's edges
+        for slot, child in slots:
             e = redges[nt_edges(ri)[slot]]
             children[e] = mk(child, tuple(asst[v] for v in e.nodes), depth + 1)
         return FGGDerivation(g, rule, asst, children)
